@@ -390,7 +390,18 @@ def _explicit_all_valid(fidx, fbits, vi, ci):
     flips = [(1 if fbits >> i & 1 else -1) for i in range(n)]
     vperm = [x for x in PERMS3[vi] if x <= n] if n < 3 else list(PERMS3[vi])
     S = [x - 1 for x in PERMS3[ci] if x <= m] if m < 3 else [x - 1 for x in PERMS3[ci]]
-    return _explicit_body(fidx, flips, vperm, S)
+    if not _explicit_body(fidx, flips, vperm, S):
+        return False
+    # the same arguments as other sequence types (tuples; ranges where the permutation is the identity)
+    F = _mk(fidx)
+    G = SH.Shuffle(F, tuple(flips), tuple(vperm), tuple(S))
+    if [list(c) for c in G.clauses()] != _apply(clauses, flips, vperm, S) or G.number_of_variables() != n:
+        return False
+    if vperm == list(range(1, n + 1)) and S == list(range(m)):
+        G = SH.Shuffle(F, tuple(flips), range(1, n + 1), range(m))
+        if [list(c) for c in G.clauses()] != _apply(clauses, flips, vperm, S):
+            return False
+    return True
 
 
 def h_e_explicit_valid(fidx: int, fbits: int, vi: int, ci: int) -> bool:
